@@ -5,6 +5,7 @@ mod h_bulk;
 mod h_c01;
 mod h_cards;
 mod h_content;
+mod h_determinism;
 mod h_readonly;
 mod h_run;
 mod h_ticket;
@@ -67,6 +68,7 @@ fn main() {
         "C16" => q_page::run(tier, replay),
         "C18" => h_readonly::run(tier, replay),
         "C19" => h_c01::run_c19(tier, replay),
+        "C23" => h_determinism::run(tier, replay),
         "C24" => h_c01::run_c24(tier, replay),
         "C25" => h_ticket::run(tier, replay),
         "C26" => h_c01::run_c26(tier, replay),
@@ -94,6 +96,7 @@ fn worker(kind: &str) {
     match kind {
         "c32" => p_query::worker(),
         "hist" => hist::worker(),
+        "c23" => h_determinism::worker(),
         "c40" => h_bulk::worker(),
         "c27" => h_cards::worker(),
         "c25" => h_ticket::worker(),
